@@ -600,14 +600,17 @@ static int get_elements_in_peer(const struct peer *p, const cJSON *request, cons
 
 int notify_fetchers(const struct element *e, const char *event_name)
 {
+	int ret = 0;
 	for (unsigned int i = 0; i < e->fetch_table_size; i++) {
 		const struct fetch *f = e->fetcher_table[i];
 		if ((f != NULL) &&
 		    (unlikely(notify_fetching_peer(e, f, event_name) != 0))) {
-			return -1;
+			/* A subscriber that can't be reached must not keep the others from being notified. */
+			log_peer_err(f->peer, "Can't notify fetching peer about %s of %s", event_name, e->path);
+			ret = -1;
 		}
 	}
-	return 0;
+	return ret;
 }
 
 cJSON *add_fetch_to_states(const struct peer *request_peer, const cJSON *request, struct fetch *f)
@@ -662,13 +665,15 @@ static int find_fetchers_for_element_in_peer(const struct peer *p,
 
 	struct list_head *item;
 	struct list_head *tmp;
+	int ret = 0;
 	list_for_each_safe (item, tmp, &p->fetch_list) {
 		struct fetch *f = list_entry(item, struct fetch, next_fetch);
 		if (unlikely(add_fetch_to_state_and_notify(p, e, f) != 0)) {
-			return -1;
+			/* One unreachable subscriber is no reason to skip the others. */
+			ret = -1;
 		}
 	}
-	return 0;
+	return ret;
 }
 
 int find_fetchers_for_element(struct element *e)
@@ -679,9 +684,8 @@ int find_fetchers_for_element(struct element *e)
 	const struct list_head *peer_list = get_peer_list();
 	list_for_each_safe (item, tmp, peer_list) {
 		struct peer *p = list_entry(item, struct peer, next_peer);
-		ret = find_fetchers_for_element_in_peer(p, e);
-		if (unlikely(ret != 0)) {
-			return ret;
+		if (unlikely(find_fetchers_for_element_in_peer(p, e) != 0)) {
+			ret = -1;
 		}
 	}
 	return ret;
